@@ -27,6 +27,7 @@ func Scan(data string, loc SourceLoc, delims []string) (tokens []Token) {
 	// TODO error on unterminated {{ and {%
 	// TODO probably an error when a tag contains a {{ or {%, at least outside of a string
 	endMatchers := map[string]*regexp.Regexp{}
+	noEnd := map[string]bool{}
 	p, pe := 0, len(data)
 	for p < pe {
 		m := tokenMatcher.FindStringSubmatchIndex(data[p:])
@@ -98,7 +99,15 @@ func Scan(data string, loc SourceLoc, delims []string) (tokens []Token) {
 				endMatcher = regexp.MustCompile(fmt.Sprintf(`%s-?\s*%s\b`, regexp.QuoteMeta(delims[2]), blockEnd))
 				endMatchers[blockEnd] = endMatcher
 			}
-			if end := endMatcher.FindStringIndex(data[p:]); end != nil && end[0] > 0 {
+			if noEnd[blockEnd] {
+				// an earlier search already ran to the end of the data without finding this end tag
+				continue
+			}
+			end := endMatcher.FindStringIndex(data[p:])
+			if end == nil {
+				noEnd[blockEnd] = true
+			}
+			if end != nil && end[0] > 0 {
 				body := data[p : p+end[0]]
 				tokens = append(tokens, Token{Type: TextTokenType, SourceLoc: loc, Source: body})
 				loc.LineNo += strings.Count(body, "\n")
